@@ -33,7 +33,7 @@ def shape(letter, var=None):
     var = var or variant()
     o, h, l, c, v = SHAPES[letter]
     t, off = var["tick"], var["offset"]
-    return (o * t + off, h * t + off, l * t + off, c * t + off, v)
+    return (o * t + off, h * t + off, l * t + off, c * t + off, v * var["volscale"] if "volscale" in var else v)
 
 
 TF_SECONDS = {"S": 1, "T": 60, "H": 3600, "D": 86400}
